@@ -1444,3 +1444,79 @@ func C11ParamsInput(r *rand.Rand, want string) C11Case {
 	}
 	return C11Case{In: C11Random(r, 120), Kind: "random"}
 }
+
+// ---------------------------------------------------------------------------------------------
+// "still alive after junk": diagnosis of a long-lived server loop that stopped answering
+
+func c11ParkedState(state string) bool {
+	return strings.HasPrefix(state, "chan ") || state == "select" || strings.HasPrefix(state, "select (") ||
+		strings.HasPrefix(state, "sync.") || strings.HasPrefix(state, "semacquire")
+}
+
+// C11LoopBlocked looks, on three scans one second apart, for the goroutine that runs a server's
+// receive / accept / distribution loop (a frame containing loopFrame, none containing notFrame) and
+// reports whether it sat parked in a channel operation, select or lock – i.e. NOT in its socket read
+// (state "IO wait") and not running – on all three.  found is false if no such goroutine exists.
+func C11LoopBlocked(loopFrame, notFrame string) (blocked, found bool, state, stack string) {
+	blocked = true
+	lastID := ""
+	for scan := 0; scan < 3; scan++ {
+		if scan > 0 {
+			time.Sleep(time.Second)
+		}
+		var g *Goroutine
+		for _, x := range Stacks() {
+			hit, excl := false, false
+			for _, f := range x.Frames {
+				if strings.Contains(f, loopFrame) {
+					hit = true
+				}
+				if notFrame != "" && strings.Contains(f, notFrame) {
+					excl = true
+				}
+			}
+			if hit && !excl {
+				x := x
+				g = &x
+				break
+			}
+		}
+		if g == nil {
+			return false, found, state, stack
+		}
+		found = true
+		state, stack = g.State, g.Raw
+		if !c11ParkedState(g.State) || (lastID != "" && lastID != g.ID) {
+			blocked = false
+		}
+		lastID = g.ID
+	}
+	return blocked, found, state, stack
+}
+
+// C11Lingering counts, on three scans one second apart, the goroutines with a frame containing marker
+// and how many of them are parked (channel / select / lock); it returns the minimum over the scans
+// (what lingers stably) and a sample stack.
+func C11Lingering(marker string) (stable, parked int, sample string) {
+	stable, parked = -1, -1
+	for scan := 0; scan < 3; scan++ {
+		if scan > 0 {
+			time.Sleep(time.Second)
+		}
+		gs := InFunc(Stacks(), marker)
+		p := 0
+		for _, g := range gs {
+			if c11ParkedState(g.State) {
+				p++
+				sample = g.Raw
+			}
+		}
+		if stable < 0 || len(gs) < stable {
+			stable = len(gs)
+		}
+		if parked < 0 || p < parked {
+			parked = p
+		}
+	}
+	return stable, parked, sample
+}
